@@ -6,6 +6,7 @@ package e3
 import (
 	"bufio"
 	"encoding/json"
+	"errors"
 	"flag"
 	"fmt"
 	"os"
@@ -106,6 +107,7 @@ type c09Obs struct {
 	Resumed  string `json:"resumed"` // P | N | other
 	Detail   string `json:"detail,omitempty"`
 	StoreLen int64  `json:"storeLen"`
+	Cold     string `json:"cold,omitempty"`  // restart while the update callbacks fail (Prometheus not up yet): "", ok, differs: ...
 	Retry    string `json:"retry,omitempty"` // outcome of re-sending the same update once the fault is gone: "", ok, not-persisted: ..., start-fails: ...
 }
 
@@ -253,6 +255,20 @@ func c09Child(args []string) int {
 				o.Resumed = "P=N"
 			} else {
 				o.Detail = "resumed=" + clipS(got, 300) + " previous=" + clipS(pState, 200) + " new=" + clipS(nState, 200)
+			}
+		}
+		// the same restart while Prometheus is not up yet: the callbacks Load() runs fail; what the sidecar
+		// resumes must not depend on that
+		if o.LoadErr == "" {
+			cold := newTM(*dir)
+			cold.AddUpdateCallbacks(func(map[string][]*target.Target) error { return errors.New("prometheus is not up yet") })
+			_ = cold.Load()
+			gc := stateJSON(cold.TargetsInfo())
+			ci, fi := cold.TargetsInfo().IdleAt != nil, fresh.TargetsInfo().IdleAt != nil
+			if sameTargets(gc, got) && ci == fi && len(cold.TargetsInfo().Status) == len(fresh.TargetsInfo().Status) {
+				o.Cold = "ok"
+			} else {
+				o.Cold = "differs: with failing callbacks resumed " + clipS(gc, 200) + " (" + fmt.Sprint(len(cold.TargetsInfo().Status)) + " status entries), otherwise " + clipS(got, 200)
 			}
 		}
 		// the coordinator re-sends the same update in the next cycle; the running sidecar must now persist it
@@ -428,6 +444,13 @@ func runC09(w *core.WorkerCtx, idx int) *core.CaseResult {
 			bad = "resumes-neither"
 		case o.Ack && o.Resumed == "P":
 			bad = "acknowledged-update-lost"
+		}
+		if o.Cold != "" {
+			res.AddStat("restarts_with_failing_callbacks", 1)
+			if o.Cold != "ok" && bad == "" {
+				bad = "restart-with-failing-callbacks-resumes-other"
+				o.Detail = o.Cold
+			}
 		}
 		if o.Retry != "" && o.Retry != "ok" {
 			res.AddStat("retries_after_failed_write", 1)
